@@ -181,11 +181,12 @@ def distinctSubs (r : Registry) : List Mod :=
 
 end Registry
 
-/-- Split `pfx:name` at the first colon (Go `getPrefix`). -/
+/-- Split `pfx:name` at the first colon (Go `getPrefix` = `strings.SplitN(s, ":", 2)`); written
+over character lists so that the kernel can evaluate it in `decide` examples. -/
 def splitPrefix (s : String) : String × String :=
-  match s.splitOn ":" with
-  | [_] => ("", s)
-  | p :: rest => (p, ":".intercalate rest)
-  | [] => ("", s)
+  let cs := s.toList
+  if cs.contains ':' then
+    (String.ofList (cs.takeWhile (· != ':')), String.ofList ((cs.dropWhile (· != ':')).drop 1))
+  else ("", s)
 
 end Goyang.Model
